@@ -148,6 +148,14 @@ class Failpoints:
             cache[code] = r
         return r
 
+    def pause(self):
+        """no callbacks at all (real signals are about to be delivered: a callback is Python code,
+        and a handler that runs inside it raises at a place no uninstrumented run can raise at)"""
+        self.mon.set_events(self.tool, 0)
+
+    def resume(self):
+        self.mon.set_events(self.tool, self.mon.events.LINE | (self.mon.events.CALL if self.c_returns else 0))
+
     def _at(self, qualname, what):
         """crash point named by place: [qualname, 'first'|'last-call'|'after <C function>', nth]"""
         fw = self.fire_where
